@@ -39,7 +39,9 @@ import (
 type Op struct {
 	Kind    string  `json:"kind"`    // pt | pe | sh | put
 	N       int     `json:"n"`       // pe / sh: HowMany
-	Patches [][]any `json:"patches"` // pt: [[key, "in"|"out"], ...]
+	Patches [][]any `json:"patches"` // pt: [[key, "in"|"out"|"keep"], ...]
+	Create  int     `json:"create"`  // pt: CreateIfNotExist
+	SeedM   int     `json:"seedm"`   // pt: InitialMsgpackOnCreate matches Cap.Filter
 	// put (seeding, carries no cap): key, st, expiry class
 	K   int    `json:"k"`
 	St  string `json:"st"`
@@ -51,7 +53,7 @@ func (o Op) traceForm() map[string]any {
 	if p == nil {
 		p = [][]any{}
 	}
-	return map[string]any{"kind": o.Kind, "n": o.N, "patches": p, "k": o.K, "st": o.St, "exp": o.Exp}
+	return map[string]any{"kind": o.Kind, "n": o.N, "patches": p, "k": o.K, "st": o.St, "exp": o.Exp, "create": o.Create, "seedm": o.SeedM}
 }
 
 var (
@@ -121,13 +123,25 @@ func exec(sw string, max int, o Op) (out []any, err error) {
 		return []any{resp.GetResults()[0].GetStatus().String()}, nil
 	case "pt":
 		req := &hydrapb.PatchTreasuresRequest{IslandID: 1, SwampName: sw, Cap: capMsg(max)}
+		if o.Create == 1 {
+			// an absent key is created from the seed body, then patched: the seed itself may already match Cap.Filter
+			req.CreateIfNotExist = true
+			seed := "p"
+			if o.SeedM == 1 {
+				seed = "c"
+			}
+			req.InitialMsgpackOnCreate = enc(map[string]any{"st": seed})
+		}
 		for _, p := range o.Patches {
 			k := int(toInt(p[0]))
-			v := "p"
-			if p[1].(string) == "in" {
-				v = "c"
+			op := &hydrapb.PatchOp{Op: hydrapb.PatchOp_SET, Path: "st", Value: enc("p")}
+			switch p[1].(string) {
+			case "in":
+				op.Value = enc("c")
+			case "keep": // does not touch the field Cap.Filter reads
+				op = &hydrapb.PatchOp{Op: hydrapb.PatchOp_SET, Path: "note", Value: enc("x")}
 			}
-			req.Patches = append(req.Patches, &hydrapb.TreasurePatch{Key: keyName(k), Ops: []*hydrapb.PatchOp{{Op: hydrapb.PatchOp_SET, Path: "st", Value: enc(v)}}})
+			req.Patches = append(req.Patches, &hydrapb.TreasurePatch{Key: keyName(k), Ops: []*hydrapb.PatchOp{op}})
 		}
 		resp, e := r.GW.PatchTreasures(bg, rig.Wire(req))
 		if e != nil {
@@ -409,12 +423,22 @@ func genOp(rng *rand.Rand, nkeys int) Op {
 	switch x := rng.Intn(10); {
 	case x < 5:
 		o := Op{Kind: "pt"}
+		if rng.Intn(3) == 0 {
+			o.Create, o.SeedM = 1, rng.Intn(2)
+		}
 		for j := 1 + rng.Intn(3); j > 0; j-- {
 			to := "in"
-			if rng.Intn(4) == 0 {
+			switch rng.Intn(6) {
+			case 0:
 				to = "out"
+			case 1, 2:
+				to = "keep"
 			}
-			o.Patches = append(o.Patches, []any{1 + rng.Intn(nkeys+1), to})
+			k := 1 + rng.Intn(nkeys+1)
+			if o.Create == 1 && rng.Intn(2) == 0 {
+				k = nkeys + 1 + rng.Intn(7-nkeys) // a key that was not seeded (6, 7 never are)
+			}
+			o.Patches = append(o.Patches, []any{k, to})
 		}
 		return o
 	case x < 8:
